@@ -16,9 +16,13 @@ def short_name(name):
 class ExecMixin(object):
 
     # -- events ----------------------------------------------------------
+    _unroll_tag = 0
+
     def site(self, frame, node):
+        # inside an unrolled constant loop every iteration gets its own sites
         return (self.repo.modules[frame.func.module].path,
-                getattr(node, "lineno", 0), getattr(node, "col_offset", 0))
+                getattr(node, "lineno", 0),
+                getattr(node, "col_offset", 0) + 1000 * self._unroll_tag)
 
     def ev(self, state, kind, frame, node, **fields):
         e = {"k": kind, "site": self.site(frame, node),
